@@ -307,4 +307,111 @@ Proof using cap_ge sig_range.
   - split; [exact P4|]. intros f Hf. eapply run_pre_frame; eauto.
 Qed.
 
+
+(* ---------- the encoder stays inside the caller's containers ---------- *)
+Ltac errne H := cbn [bind]; let E := fresh in intros E; apply H; injection E as ->; reflexivity.
+
+Hypothesis call_no_oob : forall tg m s, call tg m s <> Err EOOBRead.
+
+Lemma eval_as_no_oob t s e : eval_as cs call t s no_locals e <> Err EOOBRead.
+Proof using call_no_oob.
+  unfold eval_as. pose proof (eval_no_oob cs call e call_no_oob s no_locals) as H.
+  destruct (eval cs call s no_locals e); cbn [bind]; [discriminate|]. intros E. apply H. injection E as ->. reflexivity.
+Qed.
+
+Lemma run_w_in_bounds W : forall M known R s,
+  pair_wr cs sp M known W R = true -> M_sound cs M s -> wf_state cs s -> defined_on (wfields W) s ->
+  run_w cs call cap W s no_locals <> Err EOOBRead.
+Proof using call_no_oob.
+  induction W as [| | | |f k IH|f k IH|f e k IH|f e k IH|f e k IH|e k IH|e k IH|f e k IH|x t e k IH|x e k IH|k IH|c a IHa b IHb];
+    intros M known R s HP HM Hw Hd; cbn [pair_wr] in HP; try discriminate; cbn [run_w wfields] in *.
+  - destruct (ff f) as [x|]; [|discriminate].
+    assert (Hfb : field_bytes x (s f) <> Err EOOBRead).
+    { unfold field_bytes. destruct (f_kind x); destruct (s f); try discriminate.
+      match goal with |- context [if ?c then _ else _] => destruct c end; discriminate. }
+    destruct (field_bytes x (s f)); [|errne Hfb]. cbn [bind].
+    assert (Hk : run_w cs call cap k s no_locals <> Err EOOBRead).
+    { destruct R; try discriminate; repeat (apply andb_prop in HP; destruct HP as [HP ?]);
+        eapply IH; eauto; intros g Hg; apply Hd; right; exact Hg. }
+    destruct (run_w cs call cap k s no_locals); cbn [bind]; [discriminate|errne Hk].
+  - assert (Hsf : s f <> VUndef) by (apply Hd; left; reflexivity).
+    assert (Hd' : defined_on (wfields k) s) by (intros g Hg; apply Hd; right; exact Hg).
+    destruct R; try discriminate.
+    + (* array *)
+      apply andb_prop in HP. destruct HP as [HP HPk]. apply andb_prop in HP. destruct HP as [HP Hcnt].
+      apply andb_prop in HP. destruct HP as [HP Heq]. apply andb_prop in HP. destruct HP as [Hfh Harr].
+      assert (Hkind := Harr). unfold is_arr, kind_of in Hkind.
+      destruct (ff f) as [x|] eqn:Hx; [|discriminate]. cbn [option_map] in Hkind.
+      destruct (f_kind x) as [t|ee nn|ee] eqn:Hk; try discriminate.
+      pose proof (Hw f x Hx) as Hshape. unfold shape_ok in Hshape. rewrite Hk in Hshape.
+      destruct (s f) as [|bb|] eqn:Esf; try contradiction; try congruence.
+      destruct (whole_count cs call [] e f s Hcnt (M_sound_nil cs s) (cont_ok_arr cs s f Hw Harr (ex_intro _ bb Esf)))
+        as (b1 & Hb1 & Hev1 & Hsm1).
+      rewrite Esf in Hb1. injection Hb1 as <-. rewrite Hev1. cbn [bind].
+      assert (Hk' : run_w cs call cap k s no_locals <> Err EOOBRead) by (eapply IH; eauto).
+      destruct (zlen bb <=? 0); [exact Hk'|]. replace (zlen bb <? zlen bb) with false by lia.
+      destruct (run_w cs call cap k s no_locals); cbn [bind]; [discriminate|errne Hk'].
+    + (* vector *)
+      destruct R; try discriminate.
+      repeat (apply andb_prop in HP; let H := fresh "HQ" in destruct HP as [HP H]).
+      assert (Hkind := HQ8). unfold is_vec, kind_of in Hkind.
+      destruct (ff f) as [x|] eqn:Hx; [|discriminate]. cbn [option_map] in Hkind.
+      destruct (f_kind x) as [t|ee nn|ee] eqn:Hk; try discriminate.
+      pose proof (Hw f x Hx) as Hshape. unfold shape_ok in Hshape. rewrite Hk in Hshape.
+      destruct (s f) as [|bb|] eqn:Esf; try contradiction; try congruence.
+      destruct (whole_count cs call M e f s HQ6 HM (cont_ok_vec cs s f Hw HQ8 (ex_intro _ bb Esf)))
+        as (b1 & Hb1 & Hev1 & Hsm1).
+      rewrite Esf in Hb1. injection Hb1 as <-. rewrite Hev1. cbn [bind].
+      assert (Hk' : run_w cs call cap k s no_locals <> Err EOOBRead) by (eapply IH; eauto).
+      destruct (zlen bb <=? 0); [exact Hk'|]. replace (zlen bb <? zlen bb) with false by lia.
+      destruct (run_w cs call cap k s no_locals); cbn [bind]; [discriminate|errne Hk'].
+  - destruct R; try discriminate. repeat (apply andb_prop in HP; destruct HP as [HP ?]).
+    pose proof (eval_as_no_oob I64 s e) as He.
+    destruct (eval_as cs call I64 s no_locals e) as [n|]; cbn [bind]; [|errne He].
+    destruct ((n <? 0) || (cap <? n)); [discriminate|].
+    assert (Hk' : run_w cs call cap k s no_locals <> Err EOOBRead) by (eapply IH; eauto).
+    destruct (run_w cs call cap k s no_locals); cbn [bind]; [discriminate|errne Hk'].
+  - destruct R; try discriminate. repeat (apply andb_prop in HP; let H := fresh "HQ" in destruct HP as [HP H]).
+    pose proof (eval_no_oob cs call c call_no_oob s no_locals) as He.
+    destruct (eval cs call s no_locals c) as [x|]; cbn [bind]; [|errne He].
+    destruct (fst x =? 0).
+    + eapply IHb; eauto. intros g Hg. apply Hd. apply in_or_app. right. exact Hg.
+    + eapply IHa; eauto. intros g Hg. apply Hd. apply in_or_app. left. exact Hg.
+Qed.
+
+(* whole classes: whatever the stale values in the derived members *)
+Lemma run_pre_no_oob A : forall s, run_pre A s <> Err EOOBRead.
+Proof using call_no_oob.
+  induction A as [|[g e] r IH]; intros s; cbn [run_pre]; [discriminate|].
+  destruct (scalar_ty g) as [t|]; [|discriminate].
+  pose proof (eval_as_no_oob t s e) as He.
+  destruct (eval_as cs call t s no_locals e); cbn [bind]; [apply IH|errne He].
+Qed.
+
+Theorem encoder_in_bounds W R : class_rt_ok W R = true ->
+  let A := fst (split_pre W) in let We := snd (split_pre W) in
+  forall s, wf_state cs s -> defined_on (wfields We ++ deriv_conts A) s -> pre_guard A s ->
+  run_w cs call cap W s no_locals <> Err EOOBRead.
+Proof using call_no_oob.
+  unfold class_rt_ok. destruct (split_pre W) as [A We] eqn:Esp. cbn [fst snd].
+  intros Hok s Hws Hds Hguard.
+  apply andb_prop in Hok. destruct Hok as [Hok Hpair]. apply andb_prop in Hok. destruct Hok as [Hpre Hnsig].
+  destruct (pre_ok_entries A Hpre) as [Hent Hnd].
+  rewrite (run_w_split W s A We Esp).
+  pose proof (run_pre_no_oob A s) as Hpn.
+  destruct (run_pre A s) as [s1|] eqn:Epre; cbn [bind]; [|errne Hpn].
+  eapply run_w_in_bounds; eauto.
+  - apply (pre_M_sound A s s1 Epre Hent Hnd Hws). intros fe g t c Hin Hder. split; [|eapply Hguard; eauto].
+    assert (Hc : In (cnt_field c) (deriv_conts A)).
+    { unfold deriv_conts. apply in_flat_map. exists fe. split; [exact Hin|]. rewrite Hder. left. reflexivity. }
+    assert (Hdef : s (cnt_field c) <> VUndef) by (apply Hds; apply in_or_app; right; exact Hc).
+    rewrite Forall_forall in Hent. destruct (Hent fe Hin) as [_ Hd]. destruct (Hd g t c Hder) as [Hcont _].
+    pose proof Hcont as Hcont'. unfold is_vec, is_arr, kind_of in Hcont'.
+    destruct (ff (cnt_field c)) as [x|] eqn:Hx; [|discriminate]. cbn [option_map] in Hcont'.
+    pose proof (Hws _ x Hx) as Hsh. unfold shape_ok in Hsh.
+    destruct (f_kind x); try discriminate; destruct (s (cnt_field c)) as [|b|]; try contradiction; try congruence; exists b; reflexivity.
+  - eapply run_pre_wf; eauto.
+  - apply (run_pre_defined A s s1 _ Epre). intros f Hf. apply Hds. apply in_or_app. left. exact Hf.
+Qed.
+
 End CRT.
